@@ -20,17 +20,18 @@ from hv.proc import CaseDir, compiled_paths, hy_script, python
 ID = "C41"
 LEVEL = "exploration"
 RULE = ("short generated programs (print results, sys.argv, __name__; exit via sys.exit n/str/None; raise at run time; "
-        "fail to compile; define/use/require a macro; optional shebang) x trailing argument lists of 0-4 items from "
+        "fail to compile; define/use/require a macro) x trailing argument lists of 0-4 items from "
         "{a, -i, -c, -m, --, --spy, -B, -, --x=1, '', spaces, Unicode, -h, --help, -v, --version, ...} x option "
         "spellings before the program (-B -E -u -BE --unbuffered, -Bc CODE, -cCODE, -c=CODE, -mMOD, -m=MOD, --), each "
-        "run in the 4 modes with `hy` and `python -m hy` plus cached re-runs of FILE and -m. "
+        "run in the 4 modes with `hy`, in 1 (quick, rotating) or 4 (thorough) modes with `python -m hy`, plus a cached re-run of FILE or -m (both on thorough). "
         "Non-trivial = trailing argument list containing an option-like item (starts with '-'); distinct by "
         "(program, arguments, option spellings).")
 FLOOR = {"quick": 200, "thorough": 200}
-BUDGET = {"quick": 40, "thorough": 600}
+BUDGET = {"quick": 50, "thorough": 600}
 CASE_TIMEOUT = 240
 NEEDS_EVENTS = True      # events = child processes observed
-ANCHORS = ["hy.cmdline:cmdline_handler"]
+ANCHORS = []   # the mechanisms run in child processes; in-process line probes cannot see them.
+               # Reach is shown instead by what the children report (Compiling <path>, sys.argv, STAGE log).
 ASSUMPTIONS = [
     "sys.argv[0] expectations are those of Python's `using/cmdline` docs, to which docs/cli.rst defers",
     "generated programs have no compile-time output and reference only names they import themselves",
@@ -102,10 +103,9 @@ def gen(rng, tier):
         if rng.random() < 0.3 and ek != "compile-fail":
             lines.append('(print "unreachable")')
     text = "\n".join(lines) + "\n"
-    shebang = rng.random() < 0.05
-    if shebang:
-        text = "#!/usr/bin/env hy\n" + text
-        feats.add("shebang")
+    # carve-out: no shebang line.  "Shebangs aren't real Hy syntax" (docs/syntax.rst) and
+    # tests/test_bin.py asserts that `hy -c '#!…'` is an error, so a program starting with
+    # `#!` is a valid program only for FILE / -m.
     nargs = rng.choice([0, 1, 1, 2, 2, 3, 4])
     args = []
     for _ in range(nargs):
@@ -122,7 +122,11 @@ def gen(rng, tier):
         "stdin": rng.choice(["-", "-", "-- -"]),
     }
     pre = {k: rng.choice(PRE_OPTS) for k in spell}
-    return {"text": text, "args": args, "mod": mod_hy, "relfile": relfile, "helper": helper,
+    # quick tier: 6 processes per case (4 modes with `hy`, one mode with `python -m hy`, one cached
+    # re-run), rotating; thorough: all 10
+    alt = ["c", "file", "stdin", "m"] if tier == "thorough" else [rng.choice(["c", "file", "stdin", "m"])]
+    again = ["file", "m"] if tier == "thorough" else [rng.choice(["file", "m"])]
+    return {"alt_modes": alt, "again": again, "text": text, "args": args, "mod": mod_hy, "relfile": relfile, "helper": helper,
             "spell": spell, "pre": pre, "feats": sorted(feats)}
 
 
@@ -156,7 +160,7 @@ def build_cmd(mode, case, launcher, cdpath, relfile, text):
         f = {"FILE": relfile, "./FILE": "./" + relfile, "ABS": os.path.join(cdpath, relfile),
              "-- FILE": relfile, "sub/../FILE": "sub/../" + relfile}[spell]
         sep = ["--"] if spell == "-- FILE" else []
-        return launcher + pre + sep + [f] + args, None, f
+        return launcher + pre + sep + [f] + args, None, ("file", f, os.path.join(cdpath, relfile))
     if mode == "stdin":
         sep = ["--"] if spell == "-- -" else []
         return launcher + pre + sep + ["-"] + args, text, "-"
@@ -198,11 +202,12 @@ def observe(case, text):
         env = cd.env()
         launchers = [("hy", [hy_script()]), ("py-m-hy", [python(), "-m", "hy"])]
         plan = []
-        for lname, l in launchers:
-            for mode in ("c", "file", "stdin", "m"):
-                plan.append((lname, l, mode, "src" if lname == "hy" else "any"))
-        plan.append(("hy", launchers[0][1], "file", "again"))
-        plan.append(("hy", launchers[0][1], "m", "again"))
+        for mode in ("c", "file", "stdin", "m"):
+            plan.append(("hy", launchers[0][1], mode, "src"))
+        for mode in case.get("alt_modes", ("c", "file", "stdin", "m")):
+            plan.append(("py-m-hy", launchers[1][1], mode, "any"))
+        for mode in case.get("again", ("file", "m")):
+            plan.append(("hy", launchers[0][1], mode, "again"))
         for lname, l, mode, st in plan:
             argv, stdin, a0 = build_cmd(mode, case, l, cwd, relfile, text)
             r = cd.run(argv, env=env, cwd=cwd, stdin=stdin, timeout=60)
@@ -230,18 +235,29 @@ def judge(case, obs):
                     f"but [{o['label']}] hy {o['cmd']} -> exit {o['rc']} stdout {rest!r}; "
                     f"stderr tails: {base['err'][-250:]!r} / {o['err'][-250:]!r}")
     for o in obs:
+        if o["ar"] is None and "compile-fail" not in case["feats"]:
+            return (f"[{o['label']}] hy {o['cmd']}: the program never reported sys.argv (its first statement) — "
+                    f"exit {o['rc']} stdout {o['out'][:300]!r} stderr {o['err'][-300:]!r}")
         if o["ar"] is not None and o["ar"] != case["args"]:
             return (f"[{o['label']}] hy {o['cmd']}: program saw sys.argv[1:] = {o['ar']!r}, "
                     f"passed {case['args']!r}")
         if o["a0"] is not None:
             w = o["want0"]
             if isinstance(w, (list, tuple)):
+                # -m: "the full path to the module file".  FILE: the script name; Python's sys.argv
+                # docs leave open "whether this is a full pathname or not", so the name as given
+                # and an absolute path of the same file are both accepted.
                 try:
-                    same = os.path.realpath(o["a0"]) == os.path.realpath(w[1]) and os.path.isabs(o["a0"])
+                    same = (isinstance(o["a0"], str) and os.path.isabs(o["a0"]) and
+                            os.path.realpath(o["a0"]) == os.path.realpath(w[-1]))
                 except Exception:
                     same = False
+                if w[0] == "file" and o["a0"] == w[1]:
+                    same = True
                 if not same:
-                    return f"[{o['label']}] hy {o['cmd']}: sys.argv[0] = {o['a0']!r}, expected the full path of the module file"
+                    return (f"[{o['label']}] hy {o['cmd']}: sys.argv[0] = {o['a0']!r}, expected " + (
+                        "the full path of the module file" if w[0] == "path" else
+                        f"the script name {w[1]!r} (or its full path)"))
             elif o["a0"] != w:
                 return f"[{o['label']}] hy {o['cmd']}: sys.argv[0] = {o['a0']!r}, expected {w!r}"
     return None
@@ -268,15 +284,6 @@ def run_case(case):
     why = judge(case, obs)
     if why:
         res.update(ok=False, why=why)
-        if "shebang" in case["feats"]:
-            # attribution: feature present, and the disagreement disappears when only the
-            # shebang line is removed from the program
-            text2 = case["text"].split("\n", 1)[1]
-            obs2, problem2, n2 = observe(case, text2)
-            res["events"] += n2
-            if not problem2 and judge(case, obs2) is None:
-                res["finding"] = "shebang-only-skipped-for-FILE-and-m"
-                res["classes"].append("finding:shebang-only-skipped-for-FILE-and-m")
     return res
 
 
